@@ -23,3 +23,15 @@ VARIANTS += [
     M('C16', 'metadata-loader-memoised', [E(RD, "def load_metadata(", "@functools.lru_cache(maxsize=128)\ndef load_metadata("), E(RD, "import os\n", "import os\nimport functools\n")],
       rule='C16-NOCACHE', key='reader'),
 ]
+
+SB = 'tdda/serial/base.py'
+VARIANTS += [
+    M('C16', 'iso-regex-dot-unescaped', E(SB, "RE_ISO8601 = r'^%Y-%m-%d([T ]%H:%M:%S(\\.%f)?)?$'", "ISO8601_DATE = r'%Y-%m-%d'\nISO8601_TIME = r'%H:%M:%S(.%f)?'\nRE_ISO8601 = r'^' + ISO8601_DATE + r'([T ]' + ISO8601_TIME + r')?$'"),
+      rule='C16-ISOLANG', key='included'),
+    M('C16', 'iso-regex-any-date-separator', E(SB, "RE_ISO8601 = r'^%Y-%m-%d([T ]%H:%M:%S(\\.%f)?)?$'", "RE_ISO8601 = r'^%Y[-/]%m[-/]%d([T ]%H:%M:%S(\\.%f)?)?$'"),
+      rule='C16-ISOLANG', key='included'),
+    M('C16', 'iso-regex-loses-fraction', E(SB, "RE_ISO8601 = r'^%Y-%m-%d([T ]%H:%M:%S(\\.%f)?)?$'", "RE_ISO8601 = r'^%Y-%m-%d([T ]%H:%M:%S)?$'"),
+      rule='C16-ISOLANG', key='accepts %Y-%m-%d %H:%M:%S.%f'),
+    M('C16', 'refactor-iso-regex-in-parts', E(SB, "RE_ISO8601 = r'^%Y-%m-%d([T ]%H:%M:%S(\\.%f)?)?$'", "ISO8601_DATE = r'%Y-%m-%d'\nISO8601_TIME = r'%H:%M:%S([.]%f)?'\nRE_ISO8601 = r'^' + ISO8601_DATE + r'(?:[T ]' + ISO8601_TIME + r')?$'"),
+      kind='refactor'),
+]
